@@ -119,6 +119,10 @@ def op_stats(ops):
                 c("negative_zero_point")
         if op.ifm_upscale != a.NpuResamplingMode.NONE:
             c("upscale")
+        fms = [f for f in (op.ifm, op.ofm, op.ifm2) if f is not None]
+        if op.ifm.data_type.size_in_bits() == 16 and all(f.quantization is not None and f.quantization.scale_f32 is not None for f in fms):
+            # the operations whose accumulator width the Spec decides on (40 bit unless max / average pooling)
+            c("ifm16_scaled_" + type(op).__name__ + ("_" + op.sub_op_type.name if isinstance(op, a.NpuPoolingOperation) else ""))
         if op.activation is not None:
             c("act_" + op.activation.op_type.name)
         if op.ifm2_scalar is not None:
